@@ -5,7 +5,7 @@ set -e
 D=$(realpath "$1"); W=/tmp/sv-$$
 git -C /repo worktree add -q $W HEAD
 trap "git -C /repo worktree remove --force $W >/dev/null 2>&1 || true" EXIT
-cd $W
+cd $W; mkdir -p $W/seeded
 cmake -G Ninja -B _build -DCMAKE_BUILD_TYPE=RelWithDebInfo -DRBDL_BUILD_TESTS=ON . > /dev/null
 build_demo() { if [ -f $D/build_demo.sh ]; then (cd $W && sed "s#/tmp/wt-C[0-9]*#$W#g; s#seeded/#$D/#g; s#-o $D/demo#-o $W/demo#g" $D/build_demo.sh | bash 2>&1 | tail -3); return; fi; g++ -std=c++11 -I$W/include -I$W/_build/include -I/usr/include/eigen3 $D/demo.cc -L$W/_build -lrbdl -Wl,-rpath,$W/_build -o $W/demo 2>&1 | tail -3; }
 cmake --build _build > /dev/null 2>&1; build_demo
